@@ -18,13 +18,12 @@ def subscribers (ms : List Member) (t : Nat) : List Member := ms.filter (fun m =
 /-- the listed partitions of topic `t` -/
 def partsOf (t : Nat) (ps : List Part) : List Int := (ps.filter (fun p => p.topic == t)).map (·.id)
 
-/-- hypotheses of the property ("a set of members", a subscription is a set of topics) -/
+/-- hypothesis of the property: "a set of members" — the ids handed out by the coordinator are distinct.
+(A member's topic list may repeat a topic; it subscribes to `t` iff `t` occurs in the list.) -/
 def DistinctIds (ms : List Member) : Prop := (ms.map (·.id)).Nodup
-def TopicsOnce (ms : List Member) : Prop := ∀ m ∈ ms, m.topics.Nodup
-def WellFormed (ms : List Member) : Prop := DistinctIds ms ∧ TopicsOnce ms
+def WellFormed (ms : List Member) : Prop := DistinctIds ms
 
 instance (ms : List Member) : Decidable (DistinctIds ms) := by unfold DistinctIds; infer_instance
-instance (ms : List Member) : Decidable (TopicsOnce ms) := by unfold TopicsOnce; infer_instance
 instance (ms : List Member) : Decidable (WellFormed ms) := by unfold WellFormed; infer_instance
 
 /-- every listed partition of `t` is handed out exactly once among the subscribers of `t`
